@@ -1,0 +1,102 @@
+//go:build verif
+
+// Contracts for services (C17), checked by /verif/govc (comment-only file).
+
+package services
+
+//@ pred legalEdge(from State, to State) =
+//@      (from == New && to == Starting) || (from == Starting && to == Running) || (from == Starting && to == Stopping) ||
+//@      (from == Running && to == Stopping) || (from == Starting && to == Failed) || (from == Stopping && to == Terminated) ||
+//@      (from == Stopping && to == Failed) || (from == New && to == Terminated)
+//@
+//@ # the only place that assigns the state: compare-and-switch under the state mutex; only along legal edges
+//@ func BasicService.switchState
+//@   property C17
+//@   requires legalEdge(from, to)
+//@   ensures  switched: r0 <==> old(b).state == from
+//@   ensures  newstate: r0 ==> b.state == to && r1 == from
+//@   ensures  refused: !r0 ==> b.state == old(b).state && r1 == old(b).state
+//@   ensures  fns: same(b.startFn, old(b).startFn) && same(b.runningFn, old(b).runningFn) && same(b.stoppingFn, old(b).stoppingFn)
+//@
+//@ func BasicService.mustSwitchState
+//@   property C17
+//@   requires legalEdge(from, to)
+//@   # callers must know the current state: a failed switch would panic
+//@   requires b.state == from
+//@   ensures  b.state == to
+//@   ensures  fns: same(b.startFn, old(b).startFn) && same(b.runningFn, old(b).runningFn) && same(b.stoppingFn, old(b).stoppingFn)
+//@
+//@ func BasicService.State
+//@   property C17
+//@   ensures result == b.state
+//@   pure
+//@
+//@ func BasicService.FailureCase
+//@   property C17
+//@   ensures result == b.failureCase
+//@   pure
+//@
+//@ func invalidServiceStateError
+//@   property C17
+//@   ensures result != nil
+//@ func invalidServiceStateWithFailureError
+//@   property C17
+//@   ensures result != nil
+//@
+//@ func BasicService.StartAsync
+//@   property C17
+//@   ensures result == nil <==> old(b).state == New
+//@   ensures result == nil ==> b.state == Starting
+//@   ensures result != nil ==> b.state == old(b).state
+//@
+//@ # the service goroutine: start, run, stop at most once each and in that order; stop iff start succeeded; the
+//@ # service context is cancelled before the stopping function runs; the failure cause is the first error
+//@ func BasicService.main
+//@   property C17
+//@   requires b.state == Starting
+//@   ghost var started int = 0
+//@   ghost var ran int = 0
+//@   ghost var stopped int = 0
+//@   ghost var cancelled bool = false
+//@   ghost var startOK bool = false
+//@   ghost var runErr error = havoc
+//@   ghost var stopErr error = havoc
+//@   at before@b.startFn: assert started == 0 && ran == 0 && stopped == 0
+//@   at after@b.startFn: started := started + 1
+//@   at after@b.startFn: startOK := $r0 == nil
+//@   at before@b.runningFn: assert ran == 0 && stopped == 0 && (b.startFn != nil ==> started == 1 && startOK)
+//@   at after@b.runningFn: ran := ran + 1
+//@   at after@b.runningFn: runErr := $r0
+//@   at after@b.serviceCancel: cancelled := true
+//@   at before@b.stoppingFn: assert stopped == 0 && cancelled && (b.startFn != nil ==> started == 1 && startOK)
+//@   at after@b.stoppingFn: stopped := stopped + 1
+//@   at after@b.stoppingFn: stopErr := $r0
+//@   at exit: assert started <= 1 && ran <= 1 && stopped <= 1
+//@   at exit: assert b.startFn != nil && started == 1 && !startOK ==> stopped == 0 && ran == 0 && b.state == Failed
+//@   at exit: assert (b.startFn == nil || startOK) && b.stoppingFn != nil ==> stopped == 1
+//@   at exit: assert b.state == Terminated || b.state == Failed
+//@   at exit: assert (b.startFn == nil || startOK) ==> (b.state == Failed <==> failure != nil)
+//@   at exit: assert (b.startFn == nil || startOK) && ran == 1 && runErr != nil ==> failure == runErr
+//@   at exit: assert (b.startFn == nil || startOK) && (ran == 0 || runErr == nil) && stopped == 1 ==> failure == stopErr
+//@
+//@ func BasicService.StopAsync
+//@   property C17
+//@   ensures old(b).state == New ==> b.state == Terminated
+//@   ensures old(b).state != New ==> b.state == old(b).state
+//@
+//@ # a waiter returns nil only if, after its channel was closed (or it was already closed), the state read equals the expected one
+//@ func BasicService.awaitState
+//@   property C17
+//@   ghost var woke bool = false
+//@   at after@services.BasicService.State: woke := true
+//@   # context API: Err() is non-nil once Done() is closed
+//@   at after@context.Context.Err: assume $r0 != nil
+//@   ensures result == nil ==> woke && b.state == expectedState
+//@   modifies nothing
+//@
+//@ # frame: nothing but switchState assigns the state (so closures passed as stateFn cannot change it),
+//@ # and nothing but the constructor's literal assigns the three service functions
+//@ fieldwriters BasicService.state only BasicService.switchState property C17
+//@ fieldwriters BasicService.startFn only none property C17
+//@ fieldwriters BasicService.runningFn only none property C17
+//@ fieldwriters BasicService.stoppingFn only none property C17
